@@ -1,6 +1,7 @@
 import DiscretModel.Model.Proto
 import DiscretModel.Model.DataModel
 import DiscretModel.Gen.Consts
+import Driver.SchemaC14
 /-
 Model driver for engine `schema` (C15; the C14 ops are added by `Driver/SchemaC14.lean`-style sections below).
 
@@ -227,13 +228,14 @@ def rowsStr (rs : List (Nat × List (String × Option String))) : String :=
     s!"r{r.1}:" ++ joinWith "," (r.2.map fun p => p.1 ++ "=" ++ (p.2.getD "null"))
   if rs.isEmpty then "rows" else "rows " ++ joinWith ";" (rs.map one)
 
-def stepLine (d : Defects) (s : St) (line : String) : St × String :=
+def stepLine (d : Defects) (da : Adm.Defects) (s : St) (line : String) : St × String :=
   let toks := tokens line
   match toks with
   | "case" :: rest =>
     match nat? rest "id", kvs? rest "kind", nat? rest "n" with
     | some i, some "dm", some n => ({ db := false, models := List.replicate n Model.empty, insts := [] }, s!"case {i}")
     | some i, some "db", some n => ({ db := true, models := [], insts := List.replicate n Inst.fresh }, s!"case {i}")
+    | some i, some "c14", _ => ({ db := false, models := [], insts := [] }, s!"case {i}")
     | _, _, _ => (s, "bad-op")
   | "sysver" :: rest =>
     match nat? rest "i", parsePri rest with
@@ -296,7 +298,7 @@ def stepLine (d : Defects) (s : St) (line : String) : St × String :=
             | .error pe => putErrStr pe)
       | none => (s, "bad-op")
     | _, _, _ => (s, "bad-op")
-  | _ => (s, "bad-op")
+  | _ => (s, (SchemaC14.step da line).getD "bad-op")
 
 end SchemaDriver
 
@@ -308,4 +310,9 @@ def main : IO Unit := do
     | some "hashOrderIds" => { hashOrderIds := true, partialRefusal := false }
     | some "partialRefusal" => { hashOrderIds := false, partialRefusal := true }
     | _ => Defects.asImplemented
-  loop (← IO.getStdin) (← IO.getStdout) (SchemaDriver.stepLine d) SchemaDriver.St.init
+  let da := match (← IO.getEnv "DV_ADM_DEFECTS") with
+    | some "none" => Adm.Defects.none
+    | some "jsonNullPanics" => { jsonNullPanics := true, emptyKeyPanics := false }
+    | some "emptyKeyPanics" => { jsonNullPanics := false, emptyKeyPanics := true }
+    | _ => Adm.Defects.asImplemented
+  loop (← IO.getStdin) (← IO.getStdout) (SchemaDriver.stepLine d da) SchemaDriver.St.init
